@@ -156,7 +156,8 @@ func runC17(c *Check) {
 	// R3: hand-off
 	if sv := c.anchorFn("C17-R3", "internal/driver", "(*webInterface).stackView"); sv != nil {
 		ok := false
-		for _, b := range sv.Blocks {
+		// the encoding may be done in stackView or in a helper it hands the stack set to
+		for _, b := range helperBlocks(sv, 2) {
 			for _, ins := range b.Instrs {
 				call, isCall := ins.(*ssa.Call)
 				if !isCall || call.Call.StaticCallee() == nil || call.Call.StaticCallee().String() != "encoding/json.Marshal" {
@@ -166,7 +167,19 @@ func runC17(c *Check) {
 				if mi, isMI := arg.(*ssa.MakeInterface); isMI {
 					arg = mi.X
 				}
-				if src := producerOf(derefLoad(arg), map[ssa.Value]bool{}); src == "Stacks" {
+				val := derefLoad(arg)
+				// *param of a helper: what the caller's variable holds
+				if ld, isLd := val.(*ssa.UnOp); isLd && ld.Op == token.MUL {
+					if par, isPar := ld.X.(*ssa.Parameter); isPar {
+						if al, isAl := argOfParam(p, par, 0).(*ssa.Alloc); isAl {
+							val = derefLoad(&ssa.UnOp{Op: token.MUL, X: al})
+						}
+					}
+				}
+				if par, isPar := val.(*ssa.Parameter); isPar {
+					val = derefLoad(argOfParam(p, par, 0))
+				}
+				if src := producerOf(val, map[ssa.Value]bool{}); src == "Stacks" {
 					ok = true
 				}
 			}
@@ -194,6 +207,14 @@ func runC17(c *Check) {
 				if T, F := fieldOf(fa.X.Type(), fa.Field); T == "report.Stack" && F == "Sources" {
 					if vals := variadicValues(st.Val); len(vals) == 1 {
 						if k, ok := constInt(vals[0]); ok && k == 0 {
+							okRoot = true
+						}
+					}
+					// a preallocated list whose slot 0 keeps its zero value (the root is source
+					// 0): at least one element, and every store goes to the slot of a fill
+					// counter that starts at 1
+					if mk, ok := st.Val.(*ssa.MakeSlice); ok && newGuardEngine(p).minLenByConstruction(mk, 0) >= 1 {
+						if first, n := fillCounterStart(mk); n > 0 && first >= 1 {
 							okRoot = true
 						}
 					}
@@ -356,6 +377,17 @@ func (c *Check) selfAccumulation(mis *ssa.Function) {
 						if ia2, ok := ld.X.(*ssa.IndexAddr); ok && isLenMinus(ia2.Index) {
 							if k, ok := constInt(ia2.Index.(*ssa.BinOp).Y); ok && k == 1 {
 								lastIdx = true
+							}
+						}
+						// frames[next-1] with next the fill counter of frames (started at 1, so
+						// next-1 is the last slot written, or the root's slot 0 when none was)
+						if ia2, ok := ld.X.(*ssa.IndexAddr); ok {
+							if sub, ok := ia2.Index.(*ssa.BinOp); ok && sub.Op == token.SUB && isConstInt(sub.Y, 1) {
+								if mk, ok := ia2.X.(*ssa.MakeSlice); ok {
+									if first, n := fillCounterStart(mk); n > 0 && first == 1 && isFillCounterOf(sub.X, mk) {
+										lastIdx = true
+									}
+								}
 							}
 						}
 					}
@@ -746,4 +778,110 @@ func derivesFromStackIndex(p *Program, v ssa.Value, depth int) bool {
 		}
 	}
 	return false
+}
+
+// fillCounterStart: every store into an element of the made slice mk uses, as its index, a
+// counter that grows by one per stored element; returns the counter's initial constant and
+// the number of such stores (n == 0 when some store does not have that form).
+func fillCounterStart(mk *ssa.MakeSlice) (first int64, n int) {
+	if mk.Referrers() == nil {
+		return 0, 0
+	}
+	first = -1
+	for _, r := range *mk.Referrers() {
+		ia, ok := r.(*ssa.IndexAddr)
+		if !ok || ia.Referrers() == nil {
+			continue
+		}
+		for _, r2 := range *ia.Referrers() {
+			st, ok := r2.(*ssa.Store)
+			if !ok || st.Addr != ssa.Value(ia) {
+				continue
+			}
+			k, ok := counterStart(ia.Index, map[ssa.Value]bool{})
+			if !ok || (first >= 0 && k != first) {
+				return 0, 0
+			}
+			first = k
+			n++
+		}
+	}
+	return first, n
+}
+
+// counterStart: v is a counter built only from one initial constant and +1 steps (through
+// phis); returns the constant.
+func counterStart(v ssa.Value, seen map[ssa.Value]bool) (int64, bool) {
+	if seen[v] {
+		return -1, true
+	}
+	seen[v] = true
+	if k, ok := constInt(v); ok {
+		return k, true
+	}
+	switch x := v.(type) {
+	case *ssa.Phi:
+		res := int64(-1)
+		for _, e := range x.Edges {
+			k, ok := counterStart(e, seen)
+			if !ok {
+				return 0, false
+			}
+			if k >= 0 {
+				if res >= 0 && res != k {
+					return 0, false
+				}
+				res = k
+			}
+		}
+		return res, true
+	case *ssa.BinOp:
+		if x.Op == token.ADD && isConstInt(x.Y, 1) {
+			k, ok := counterStart(x.X, seen)
+			if ok && k >= 0 {
+				return -1, true // a step: contributes no initial value of its own
+			}
+			return k, ok
+		}
+	}
+	return 0, false
+}
+
+// isFillCounterOf: v is (a phi merging) the index values used to store into mk.
+func isFillCounterOf(v ssa.Value, mk *ssa.MakeSlice) bool {
+	idx := map[ssa.Value]bool{}
+	for _, r := range *mk.Referrers() {
+		if ia, ok := r.(*ssa.IndexAddr); ok && ia.Referrers() != nil {
+			for _, r2 := range *ia.Referrers() {
+				if st, ok := r2.(*ssa.Store); ok && st.Addr == ssa.Value(ia) {
+					idx[ia.Index] = true
+				}
+			}
+		}
+	}
+	seen := map[ssa.Value]bool{}
+	var related func(x ssa.Value) bool
+	related = func(x ssa.Value) bool {
+		if seen[x] {
+			return false
+		}
+		seen[x] = true
+		if idx[x] {
+			return true
+		}
+		switch y := x.(type) {
+		case *ssa.Phi:
+			for _, e := range y.Edges {
+				if related(e) {
+					return true
+				}
+			}
+		case *ssa.BinOp:
+			if y.Op == token.ADD && isConstInt(y.Y, 1) {
+				return related(y.X)
+			}
+		}
+		return false
+	}
+	return related(v)
 }
